@@ -53,7 +53,8 @@ out = {
 old = os.path.join(dst, 'meta.json')
 if os.path.exists(old):
     o = json.load(open(old))
-    if 'detected_by' in o:
-        out['detected_by'] = o['detected_by']
+    for k in ('detected_by', 'first_run'):
+        if k in o:
+            out[k] = o[k]
 json.dump(out, open(old, 'w'), indent=1)
 print(name, 'packed', json.dumps(line))
